@@ -615,6 +615,51 @@ pub fn run(id: &str) {
             let has_reserves = at_end.map(|p| p.0 > 0 && p.1 > 0).unwrap_or(false);
             verdict(id, dep_ok && wd_ok && (panicked || !has_reserves), &format!("deposit={} opened={:?} withdraw-all={} emptied={:?} sealing-through-activation-panicked={} erg/sym pool at height {}={:?}", dep_ok, opened, wd_ok, emptied, panicked, cur.header().height.0, at_end));
         }
+        // a user-opened ERG/SYM pool from before TIP-902, emptied by its only holder *after* the activation: the
+        // withdrawals of that block leave it without reserves and the pegging step of the same block needs its price
+        "F24" => {
+            let a0 = p.key_addr(0);
+            let mut coins = vec![];
+            for i in 0..6u8 {
+                let denom = match i { 4 => Denom::Sym, 5 => Denom::Erg, _ => Denom::Mel };
+                coins.push((CoinID::new(TxHash(tmelcrypt::hash_keyed(b"probecoin", [i])), 0), CoinDataHeight { coin_data: out(a0, 1_000_000_000_000, denom), height: BlockHeight(400) }));
+            }
+            let spec = FabSpec {
+                network: NetID::Testnet, height: 496, fee_pool: 1 << 20, fee_multiplier: 0, dosc_speed: 1_000_000, coins: coins.clone(),
+                pools: vec![
+                    (PoolKey::new(Denom::Mel, Denom::Sym), pool(2_000_000_000, 3_000_000_000, 1_000_000_000)),
+                    (PoolKey::new(Denom::Mel, Denom::Erg), pool(2_000_000_000, 3_000_000_000, 1_000_000_000)),
+                ],
+                stakes: vec![], history: vec![(495, 1_000_000), (494, 1_000_000)],
+            };
+            let (sealed0, _) = p.w.fabricate(&spec);
+            let mut u = sealed0.next_unsealed();
+            let wc: Vec<WCoin> = coins.into_iter().map(|(id, cdh)| WCoin { id, cdh, spec: CovSpec::StdNew(0) }).collect();
+            let key = PoolKey::new(Denom::Erg, Denom::Sym);
+            let (l, rr) = (key.left(), key.right());
+            let coin_of = |d: Denom| if d == Denom::Sym { wc[4].clone() } else { wc[5].clone() };
+            let dep = p.tx(TxKind::LiqDeposit, &[wc[0].clone(), coin_of(l), coin_of(rr)], vec![out(a0, 5000, l), out(a0, 7000, rr), out(a0, 1_000_000_000_000 - 5000, l), out(a0, 1_000_000_000_000 - 7000, rr)], key.to_bytes().to_vec(), 0);
+            let dep_ok = u.apply_tx(&dep).is_ok();
+            let mut cur = u.seal(None); // block 497
+            let opened = cur.pool(key).map(|p| (p.lefts, p.rights, p.liqs));
+            while cur.header().height.0 < 501 {
+                cur = cur.next_unsealed().seal(None);
+            }
+            let kept = cur.pool(key).map(|p| (p.lefts, p.rights, p.liqs));
+            let mut u = cur.next_unsealed(); // height 502, TIP-902 active since 500
+            let mut wd_ok = false;
+            if let Some(liqc) = cur.coin(dep.output_coinid(0)) {
+                let feec = wc[1].clone();
+                let liqw = WCoin { id: dep.output_coinid(0), cdh: liqc.clone(), spec: CovSpec::StdNew(0) };
+                let wd = assemble(&p.wallet, TxKind::LiqWithdraw, &[feec.clone(), liqw], vec![out(a0, liqc.coin_data.value.0, liqc.coin_data.denom)], feec.cdh.coin_data.value.0, key.to_bytes().to_vec());
+                p.w.names.reg_tx(&wd);
+                wd_ok = u.apply_tx(&wd).is_ok();
+            }
+            let r = silent(|| u.seal(None));
+            let after = r.as_ref().ok().and_then(|s| s.pool(key)).map(|p| (p.lefts, p.rights, p.liqs));
+            let priced = after.map(|p| p.0 > 0 && p.1 > 0).unwrap_or(false);
+            verdict(id, dep_ok && wd_ok && (r.is_err() || !priced), &format!("deposit={} opened={:?} kept-at-activation={:?} withdraw-all-after-activation={} seal-panicked={} erg/sym pool after that seal={:?}", dep_ok, opened, kept, wd_ok, r.is_err(), after));
+        }
         // two covenants of saturated weight: the plain sum overflows
         "F19" => {
             use OpCode::*;
